@@ -18,6 +18,7 @@
 package rbk
 
 import (
+	"encoding/hex"
 	"encoding/json"
 	"fmt"
 	"os"
@@ -221,6 +222,14 @@ func (r *run) compare(clause string, h uint32, got, want *obs) (clean, ok bool) 
 		}
 		sig := r.cfg.Prop + ":" + clause + ":" + v.name + df.Sig()
 		detail := fmt.Sprintf("height %d: %s%s = %s, direct build has %s", h, v.name, df.Path, df.A, df.B)
+		if r.cfg.Side == DPoS && r.overThresholdOutsideSet(df) {
+			// forward inconsistency, not a rollback one: in the direct build a
+			// producer with vote rights over DPoSV2EffectiveVotes is missing from
+			// DposV2EffectedProducers (a vote renewal lifted it over the threshold;
+			// only new votes maintain the set), so undoing a later vote keeps it
+			// in the set by the set's own rule.  One finding.
+			sig = r.cfg.Prop + ":" + clause + ":effected-set-lacks-a-producer-over-the-threshold"
+		}
 		if !vk.Report(r.t, sig, detail, r.render()) {
 			return false, false
 		}
@@ -228,6 +237,27 @@ func (r *run) compare(clause string, h uint32, got, want *obs) (clean, ok bool) 
 		return false, true
 	}
 	return true, true
+}
+
+// overThresholdOutsideSet: the difference is a DposV2EffectedProducers entry
+// the direct build lacks although that producer's DPoS 2.0 vote rights are at
+// or over the threshold in the compared state.
+func (r *run) overThresholdOutsideSet(df *canon.Diff) bool {
+	const pre = "State.StateKeyFrame.DposV2EffectedProducers["
+	if !strings.HasPrefix(df.Path, pre) || df.B != "<absent>" {
+		return false
+	}
+	rest := df.Path[len(pre):]
+	i := strings.IndexByte(rest, ']')
+	if i < 0 || i != len(rest)-1 {
+		return false
+	}
+	owner, err := hex.DecodeString(strings.TrimPrefix(rest[:i], "0x"))
+	if err != nil {
+		return false
+	}
+	p := r.k.Arbiters.State.GetProducer(owner)
+	return p != nil && p.GetTotalDPoSV2VoteRights() >= float64(r.k.Params.DPoSV2EffectiveVotes)
 }
 
 func (r *run) advance(n int) {
